@@ -8,7 +8,9 @@
 **   sseek(origin, offset) / sseek(stell, SEEK_SET) / print_to / scan_from /
 **   with (f in file) { inner } / del + re-create (raw, collector-managed, constructor-open,
 **   stack-allocated) / destruct(file) with the object kept / construct(file, path, mode) on the
-**   existing object / environment: another stream appends a byte to the open file.
+**   existing object / nested with blocks (File and Mutex either way round, two Files, a with in a
+**   called function that returns or throws) / environment: another stream appends a byte to the
+**   open file.
 **
 ** Three independent views of every history:
 **   1. the real File object (Cello, /repo/src/File.c) on files r0, r1;
@@ -212,6 +214,7 @@ static var* R;
 #define F (R[0])                 /* the File under test */
 #define SK (R[1])                /* String scan target (capacity 100) */
 #define IV (R[2])                /* Int scan target */
+#define MX (R[3])                /* a Mutex: the "other object" of nested with blocks */
 enum { F_RAW, F_MANAGED, F_STACK };
 static int F_kind;
 static var sfmem;                /* room for one stack-allocated File (lives in main's frame) */
@@ -242,8 +245,8 @@ static size_t make_record(size_t n) { memset(recbuf, 'k', n); memcpy(recbuf + n,
 
 enum { K_SOPEN, K_SCLOSE, K_STELL, K_SEOF, K_SFLUSH, K_SWRITE, K_SREAD, K_SSEEK, K_PRINT, K_SCAN, K_EMPTY, K_CONSTRUCT };
 struct prim { int kind, a, b; };
-enum { T_PLAIN, T_WITH, T_DELNEW, T_ENV, T_DESTRUCT };
-struct op { int type; struct prim p; int variant; char name[64]; char kname[32]; };
+enum { T_PLAIN, T_WITH, T_DELNEW, T_ENV, T_DESTRUCT, T_NEST };
+struct op { int type; struct prim p; int variant; char name[96]; char kname[32]; };
 #define MAXOPS 96
 static struct op ops[MAXOPS];
 static int nops;
@@ -260,7 +263,7 @@ static int nt_flag;
 static unsigned char firstmask[MAXOPS]; static int have_first;
 
 /* evidence counters */
-static uint64_t n_readback_bytes, n_closed_ops, n_disk_compares, n_scan_ok, n_with_exit, n_cfail, n_fclose_seen, n_fopen_seen, n_env, n_diverged, n_probes, n_destruct, n_ladder, n_sweep, n_wladder;
+static uint64_t n_readback_bytes, n_closed_ops, n_disk_compares, n_scan_ok, n_with_exit, n_cfail, n_fclose_seen, n_fopen_seen, n_env, n_diverged, n_probes, n_destruct, n_ladder, n_sweep, n_wladder, n_nest;
 
 static struct { int fclose, fopen, silent; } E;   /* expectations for the operation in progress */
 static char site[96];
@@ -703,6 +706,113 @@ static int finalize_file(int keep) {
 
 static int delete_file(void) { return finalize_file(0); }
 
+/* ---- nested with blocks ------------------------------------------------------------ */
+
+/*
+** A with block on the File whose body runs another with block on a different object (a Mutex, a
+** second File), directly or inside a called function, and the other way round.  Each block must
+** stop ITS object when it is left: the File's stream is closed exactly once, the second File's
+** stream exactly once, the Mutex is unlocked (trylock succeeds).  An exception raised inside leaves
+** all blocks without running any stop (that is how `with` is built): the File then stays as it was.
+*/
+enum { N_FILE_MUTEX, N_MUTEX_FILE, N_FILE_FILE, N_FILE_CALL, N_FILE_CALL_THROWS, NNEST };
+static const struct prim nest_write = { K_SWRITE, 1, 0 };      /* the inner operation: swrite("\xff") */
+static volatile int stage;        /* 1: inner operation done */
+
+static void nest_helper(var f, int throws) {
+  with (m in MX) {
+    prim_real(&nest_write, f); stage = 1; completed = 1;
+    if (throws) throw(ValueError, "leaving the function by an exception");
+  }
+}
+
+/* the Mutex must not stay locked for the next operation; judged only when every block was left normally */
+static int mutex_release(int must_be_free) {
+  volatile bool got = false;
+  var e = VF_CATCH(got = trylock(MX));
+  if (e == NULL && got) { VF_CATCH(unlock(MX)); return 0; }
+  VF_CATCH(unlock(MX));
+  if (must_be_free) return V("mutex-still-locked", "after leaving the with block on the Mutex normally trylock %s", e ? "raised" : "fails: the block did not unlock it"), 1;
+  return 0;
+}
+
+static int apply_nest(struct op* o) {
+  int v = o->variant;
+  if (v != N_FILE_FILE && !prim_enabled(&nest_write)) return VF_SKIP;
+  set_site(o->kname);
+  ledger_reset(); prim_prepare(&nest_write);
+  stage = 0; n_nest++;
+  int was_open = M.open;
+  var e = NULL;
+
+  if (v == N_FILE_FILE) {
+    /* the second File appends one byte to the other path */
+    int other = M.open ? 1 - M.path : 1;
+    touched[other] = 1;
+    R[4] = new_raw(File);
+    e = LIB( with (f in F) { with (g in sopen(R[4], $S(rpath[other]), $S("ab"))) { g_ret = (int64_t)swrite(g, "\xff", 1); stage = 1; completed = 1; } } );
+    if (ledger_fault()) goto bad_g;
+    E.fopen += 1; E.fclose += 1 + (was_open ? 1 : 0);
+    FILE* t2 = fopen(tpath[other], "ab");
+    if (!t2 || fwrite("\xff", 1, 1, t2) != 1 || fclose(t2) != 0) infra("second twin stream on path %d", other);
+    struct mfile* of = &M.f[other];
+    if (!of->exists) { of->exists = 1; of->len = 0; }
+    mf_write(of, of->len, "\xff", 1);
+    if (was_open) { twin_close(); model_close(); }
+    if (stage != 1) { V("inner-body-not-run", "the body of the inner with block did not complete (%s)", vf_exc_name(e)); goto bad_g; }
+    if (g_ret != 1) { V("return-count", "swrite of 1 byte on the second File returned %" PRId64, (int64_t)g_ret); goto bad_g; }
+    if (was_open ? e != NULL : (e != NULL && e != IOError)) { V("exit-raised", "leaving the nested with blocks on two Files raised %s", vf_exc_name(e)); goto bad_g; }
+    if (ledger_post()) goto bad_g;
+    if (whitebox && ((struct File*)R[4])->file != NULL) { V("second-file-handle-field-set-while-closed", "the second File still holds a stream after its with block was left"); goto bad_g; }
+    { ledger_reset(); E.silent = 1;
+      var e2 = LIB(sclose(R[4]));
+      if (ledger_fault()) goto bad_g;
+      if (e2 != IOError) { V("second-file-sclose-no-IOError", "sclose of the second File after its with block %s", e2 ? "raised another exception" : "returned normally"); goto bad_g; }
+      if (ledger_post()) goto bad_g; }
+    in_lib = 1; VF_CATCH(del_raw(R[4])); in_lib = 0; R[4] = NULL;
+    return verify_disk() ? VF_BAD : VF_OK;
+bad_g:
+    in_lib = 1; VF_CATCH(del_raw(R[4])); in_lib = 0; R[4] = NULL;
+    mutex_release(0);
+    return VF_BAD;
+  }
+
+  switch (v) {
+  case N_FILE_MUTEX: e = LIB( with (f in F) { with (m in MX) { prim_real(&nest_write, f); stage = 1; completed = 1; } } ); break;
+  case N_MUTEX_FILE: e = LIB( with (m in MX) { with (f in F) { prim_real(&nest_write, f); stage = 1; completed = 1; } } ); break;
+  case N_FILE_CALL:  e = LIB( with (f in F) { nest_helper(f, 0); } ); break;
+  default:           e = LIB( with (f in F) { nest_helper(f, 1); } ); break;
+  }
+  if (stage == 0) {
+    /* the inner operation raised (File not open, or a C-library-defined failure): nothing was stopped */
+    int r = prim_after(&nest_write, e);
+    mutex_release(0);
+    if (r == VF_BAD) return r;
+    return ledger_post() ? VF_BAD : VF_OK;
+  }
+  int r = prim_after(&nest_write, NULL);
+  if (r == VF_BAD) { mutex_release(0); return r; }
+  if (v == N_FILE_CALL_THROWS) {
+    /* the function left by its own exception: no stop has run, the File is still open */
+    mutex_release(0);
+    if (e != ValueError) return V("exception-lost", "the exception thrown inside the nested with blocks arrived as %s", vf_exc_name(e));
+    return ledger_post() ? VF_BAD : VF_OK;
+  }
+  /* every block was left normally: the File is closed exactly once, the Mutex is unlocked */
+  E.fclose += 1;
+  twin_close(); model_close();
+  if (ledger_fault()) { mutex_release(0); return VF_BAD; }
+  if (e != NULL) { mutex_release(0); return V("exit-raised", "leaving the nested with blocks raised %s", vf_exc_name(e)); }
+  if (ledger_post()) { mutex_release(0); return VF_BAD; }
+  if (mutex_release(1)) return VF_BAD;
+  { ledger_reset(); E.silent = 1;               /* and it refuses use like any closed File */
+    var e2 = LIB(sclose(F));
+    if (ledger_fault()) return VF_BAD;
+    if (e2 != IOError) return V("then-sclose-no-IOError", "sclose after the nested with blocks %s, the File is closed", e2 ? "raised another exception" : "returned normally");
+    if (ledger_post()) return VF_BAD; }
+  return verify_disk() ? VF_BAD : VF_OK;
+}
+
 static int apply_destruct(struct op* o) {
   set_site(o->kname);
   n_destruct++;
@@ -787,6 +897,7 @@ static int apply(int opi) {
   case T_WITH:   r = apply_with(o); break;
   case T_ENV:    r = apply_env(o); break;
   case T_DESTRUCT: r = apply_destruct(o); break;
+  case T_NEST:   r = apply_nest(o); break;
   default:       r = apply_delnew(o); break;
   }
   if (r != VF_SKIP) { nsteps++; compute_divergence(); }
@@ -978,6 +1089,12 @@ static void build_alphabet(int lite) {
   add_plain(K_CONSTRUCT, 0, M_RP);             /* construct(file, path0, "r+b") on the existing object */
   add_delnew(3, 0, 0);                         /* continue on a stack File: released with destruct only */
   add_plain(K_PRINT, 1, 0);                    /* print_to of a 257-character conversion */
+  { static const char* nn[NNEST] = { "with(f in file){with(m in mutex){swrite(\"\\xff\")}}", "with(m in mutex){with(f in file){swrite(\"\\xff\")}}",
+      "with(f in file){with(g in sopen(file2,other path,\"ab\")){swrite(g,\"\\xff\")}}", "with(f in file){call: with(m in mutex){swrite(\"\\xff\")}}",
+      "with(f in file){call: with(m in mutex){swrite(\"\\xff\");throw}}" };
+    static const char* nk[NNEST] = { "with(with-mutex)", "with-mutex(with)", "with(with-file2)", "with(call-with-mutex)", "with(call-with-mutex-throws)" };
+    for (int v = 0; v < NNEST; v++) { struct op* o = &ops[nops++]; memset(o, 0, sizeof *o); o->type = T_NEST; o->variant = v;
+      snprintf(o->name, sizeof o->name, "%s", nn[v]); snprintf(o->kname, sizeof o->kname, "%s", nk[v]); } }
 }
 
 static void parse_first(const char* s, int value) {
@@ -1501,7 +1618,7 @@ static void ladder(void) {
 
 int main(int argc, char** argv) {
   vf_init(argc, argv);
-  var roots[4] = { NULL, NULL, NULL, NULL };
+  var roots[6] = { NULL, NULL, NULL, NULL, NULL, NULL };
   R = roots;
 
   /* every byte value occurs; period 509 (prime) so that a shift by a buffer size is visible */
@@ -1527,6 +1644,7 @@ int main(int argc, char** argv) {
   make_scratch();
   SK = new_raw(String, $S("")); resize(SK, MAXPAY + 8);
   IV = new_raw(Int, $I(0));
+  MX = new_raw(Mutex);
   var stackfile[8] = { NULL };                  /* header + struct File of the stack-allocated File */
   sfmem = stackfile;
   for (int i = 0; i < 2; i++) { memset(paystr[i], 'k', paylen[i]); paystr[i][paylen[i]] = 0; }
@@ -1562,6 +1680,7 @@ int main(int argc, char** argv) {
   vf_extra("c_library_defined_failures_mirrored", "%" PRIu64, n_cfail);
   vf_extra("other_stream_appends", "%" PRIu64, n_env);
   vf_extra("destruct_with_object_kept", "%" PRIu64, n_destruct);
+  vf_extra("nested_with_blocks", "%" PRIu64, n_nest);
   vf_extra("state_probes_seof_stell", "%" PRIu64, n_probes);
   vf_extra("real_stream_differs_from_twin_stream", "%" PRIu64, n_diverged);
   vf_extra("fopen_calls_seen", "%" PRIu64, n_fopen_seen);
